@@ -13,6 +13,18 @@ VERIF = os.path.dirname(os.path.dirname(os.path.abspath(__file__)))
 def sh(cmd, **kw):
     return subprocess.run(cmd, shell=isinstance(cmd, str), capture_output=True, text=True, **kw)
 
+def sh_demo(cmd, timeout=900, **kw):
+    """run a demonstration in its own process group; a hang (exit 124) kills the whole group"""
+    import signal
+    p = subprocess.Popen(cmd, stdout=subprocess.PIPE, stderr=subprocess.PIPE, text=True, start_new_session=True, **kw)
+    try:
+        out, err = p.communicate(timeout=timeout)
+    except subprocess.TimeoutExpired:
+        os.killpg(p.pid, signal.SIGKILL)
+        out, err = p.communicate()
+        return subprocess.CompletedProcess(cmd, 124, out, err + "\n[demo timed out after %ds: hang]" % timeout)
+    return subprocess.CompletedProcess(cmd, p.returncode, out, err)
+
 def main():
     a = sys.argv[1:]
     src, name = a[0], a[1]
@@ -43,8 +55,8 @@ def main():
     res["suite_ok"] = t.returncode == 0 and "40 passed" in res["suite"]
     demo = os.path.abspath(os.path.join(src, "demo.py"))
     scratch = f"{d}/_demo"; os.makedirs(scratch)
-    r0 = sh(["/venv/bin/python", demo, "/repo"], cwd=scratch, env=dict(os.environ, PYTHONPATH="/repo"))
-    r1 = sh(["/venv/bin/python", demo, d], cwd=scratch, env=env)
+    r0 = sh_demo(["/venv/bin/python", demo, "/repo"], cwd=scratch, env=dict(os.environ, PYTHONPATH="/repo"))
+    r1 = sh_demo(["/venv/bin/python", demo, d], cwd=scratch, env=env)
     res["demo_unpatched_exit"], res["demo_patched_exit"] = r0.returncode, r1.returncode
     res["demo_patched_tail"] = (r1.stdout + r1.stderr)[-300:]
     res["confirmed"] = bool(res["suite_ok"] and r0.returncode == 0 and r1.returncode != 0)
